@@ -1,1 +1,50 @@
-(* placeholder *) From Klepto Require Import CacheCore.
+(* C02  Compute-once: the function runs only when no stored result is retrievable. *)
+From Klepto Require Import OMap CacheDict CacheDictFacts CacheCore CoreInv CoreStep CoreSize CoreExn CoreStore.
+
+(* (a) every configuration, every state: at most one evaluation per call, and an evaluation only
+       when the key is in neither the memory cache nor the attached archive *)
+Theorem C02_eval_only_if_absent : forall c s k fr orc,
+  match snd (call c s (KOk k) fr orc) with
+  | ORet _ ev | ORaise _ ev =>
+      (ev = 0 \/ ev = 1) /\
+      (ev = 1 -> get (smem s) k = None /\ (archived_ c s = true -> a_get (arch (cs s)) k = None))
+  | _ => False
+  end.
+Proof. exact eval_only_if_absent. Qed.
+
+(* (b) a lossless archive attached: over any history of calls / load / dump / introspection, across
+       evictions and purges, each key is evaluated at most once *)
+Theorem C02_at_most_once : forall c ops s k, forallb traffic ops = true -> Good c s -> evals c s ops k <= 1.
+Proof. exact evaluated_at_most_once. Qed.
+
+(* (c) a second decorator instance / later session on the same archive (any state whose archive
+       holds the key, e.g. empty memory) never re-evaluates a key that has reached the archive *)
+Theorem C02_second_session : forall c ops s k, forallb traffic ops = true -> Good c s -> has c s k -> evals c s ops k = 0.
+Proof. exact held_never_evaluated. Qed.
+
+(* a computed result is retrievable right after the call that computed it *)
+Theorem C02_computed_is_kept : forall c s kr fr orc, WF c s -> archived_ c s = true -> agree s ->
+  forall k v ev, kr = KOk k -> snd (call c s kr fr orc) = ORet v ev ->
+     (ev = 0 /\ retr s k v) \/
+     (ev = 1 /\ fr = Ret v /\ get (smem s) k = None /\ a_get (arch (cs s)) k = None /\ retr (fst (call c s kr fr orc)) k v).
+Proof. intros c s kr fr orc Hwf Har Hag. exact (proj2 (proj2 (proj2 (proj2 (call_keeps c s kr fr orc Hwf Har Hag))))). Qed.
+
+Example C02_witness :
+  let c := mkCfg RR 1 true false false in
+  let s0 := init_state (mkC [] (AStore [(5, 105)]) ANull) in
+  Good c s0 /\ has c s0 5 /\
+  evals c s0 [Call (KOk 1) (Ret 101) 1; Call (KOk 2) (Ret 102) 1; Call (KOk 1) (Ret 101) 2; Call (KOk 1) (Ret 101) 2] 1 = 1.
+Proof.
+  cbv zeta. split; [|split].
+  - split; [|split].
+    + apply WF_init_any. unfold wf_c, wf_arch; cbn. repeat split; repeat constructor; cbn; intuition discriminate.
+    + reflexivity.
+    + intros k v v'. cbn. discriminate.
+  - exists 105. left. reflexivity.
+  - vm_compute. reflexivity.
+Qed.
+
+Print Assumptions C02_eval_only_if_absent.
+Print Assumptions C02_at_most_once.
+Print Assumptions C02_second_session.
+Print Assumptions C02_computed_is_kept.
